@@ -39,6 +39,50 @@ CHECKS = {
    text="Per artefact type and suite: durable round trips across a node restart in every codec (octets, JSON, pk coordinates); and the complete fault neighbourhood of an honest encoding -- extension by 1..=64 octets x 3 content classes, truncation to every length, every single-bit flip, every non-canonical/forbidden substitution in every point and scalar slot -- with the oracle: accepted => re-encoding equals the delivered octets, forbidden class => Err. 48 runs enumerate everything.",
    note="Found F4 and the identity/zero decodes of F1 on the pinned tree (fixed in /repo 7bc6f36, bb0073d). Decoders are pure functions; the simulator contributes the restart/reload observation and replay.",
    technique="deterministic simulation: fault-neighbourhood enumeration of stored/in-flight encodings, restart round trips"),
+ "C07": dict(engine=REAL_BBS, cat="exploration", ref="§5 C07",
+   text="K in 2..6 holder nodes, each a real OS thread with its own thread_rng fed by its own deterministic entropy stream, perform 2..6 generations each (proof_gen, blind_proof_gen, commit, KeyPair::random + BlindFactor::random) on identical inputs, interleaved by the scheduler with tick preemption, holder crash-restart (fresh thread-local RNG) and EINTR/short reads. A wire monitor that holds every witness recomputes the blinding values of every transcript (e~, m~_j, s~, cm~_i) and requires, over the whole history of the run: non-zero, >= 2^160, pairwise distinct; no repeated response, Abar, Bbar, D, commitment, blind factor or random key; no window of a proof/commitment equal to a hidden scalar, e, A or the blind factor.",
+   note="'No pair of transcripts allows extraction' is decided in the form the property's own quantifier gives, not as a proof of zero knowledge. A deterministic generator that ignores OS entropy but spreads well (hashed global counter) would pass the distinctness oracle.",
+   technique="deterministic simulation: multi-thread history with per-node entropy streams and crash-restart, witness-holding wire monitor"),
+ "C10": dict(engine=REAL_BBS, cat="exploration", ref="§5 C10, Appendix B",
+   text="Operation-by-operation refinement against an executable spec model written from the two drafts (own expand_message_xmd/xof, hash_to_scalar, KeyGen, SkToPk, create_generators, messages_to_scalars, domain, Sign, Verify, ProofVerify, blind commit/sign/verify/proof-verify) that first has to reproduce all 110 fixture vectors incl. trace values (otherwise exit 2). 12..31 deterministic operations per run -- across the ikm/key_info/DST limits, counts 0..257 (1000+ thorough), plain/blind/BLIND_/empty/arbitrary api_ids, headers across 255/256, and accept/reject decisions of all five verifiers on honest and singly mutated artefacts -- are spread over 1, 2-4, 5-8 or 16 nodes, interleaved with tick preemption, and each result is compared with the model (octets and Ok/Err) and, for a sample, with the same operation alone on a fresh thread.",
+   note="Trusted base: the model's reading of the drafts (DESIGN.md Appendix B) pinned by the fixtures; bls12_381_plus curve arithmetic, hash-to-curve and pairing are shared with the library. The first sentence of C10 is a pure-function claim: the simulator is its vehicle (schedule dimension + replay), the deciding oracle is the reference model.",
+   technique="deterministic simulation: interleaved operations checked op-by-op against an executable reference model"),
+ "C11": dict(engine=REAL_BBS, cat="fault_enumeration", ref="§5 C11",
+   text="Misdelivery as a network fault: every honest artefact (signature, proof, commitment-with-proof, blind signature, blind proof) of (suite s, interface i) is delivered to every endpoint (s', i'); the 3 foreign endpoints per artefact must reject (complete matrix per run, both suites over consecutive runs). Generator sets created by 6..13 calls in a per-run order, spread over two nodes with preemption inside create_generators, are checked for count, identity, P1, duplicates, prefix consistency with every earlier set of the same api_id and disjointness from every set of another api_id.",
+   note="Foreign endpoints try every plausible way of feeding the artefact (with/without committed messages, every L). The generator clauses are pure on the pinned tree; the interleaved re-evaluation is where a wrongly keyed cache shows.",
+   technique="deterministic simulation: complete misroute matrix plus cross-call generator invariants under interleaving"),
+ "C12": dict(engine=REAL_BBS, cat="exploration", ref="§5 C12",
+   text="A history property: a holder-intended sequence of up to 10 (thorough 32) single-message updates travels as UpdateRequest frames over a channel that reorders, duplicates, drops and corrupts them; the Issuer node applies them in arrival order; a sequential model (message vector + e) decides after every step: correct old value => the reply verifies for the intended vector, keeps e and its A equals B(vector)/(sk+e) computed by the spec model; index >= L => error; wrong old value (alteration, reorder, double application) => the reply must not verify for the intended vector; finally every epoch's signature is replayed against every other epoch's vector.",
+   note="n passed to update_signature is the true message count (trusted).",
+   technique="deterministic simulation: faulty request stream checked step by step against a sequential model"),
+ "C13": dict(engine=REAL_CL, cat="exploration", ref="§5 C13",
+   text="Issuance sessions under pool keys (CL1024, generated by the library on entropy-seamed threads), n = 1..5 attributes incl. corner values, single- and multi-attribute API, JSON and octet transport with holder restart, selective disclosure for all 2^n hidden subsets; a monitor that knows p, q checks every issued (e, s): e prime, exactly le bits, coprime to phi(N), s exactly ls bits. Then the corrupting catalogue on the credential frame and Mallory's signatures derived without the secret key ((v*a_i^k, m_i + k*e), k in {+-1, +-2}, every position). Verdict by content.",
+   note="Found F7 on the pinned tree (fixed in /repo 501a80e). CL1024 only. Trailing zero attributes are the same statement (DontCare).",
+   technique="deterministic simulation: channel corruption + Byzantine frames on the CL03 issuance leg, number-theoretic monitor"),
+ "C14": dict(engine=REAL_CL, cat="exploration", ref="§5 C14",
+   text="Blind issuance as a 2/3-party protocol (Holder, Issuer, optional trusted party) for all 57 (n <= 5, non-empty hidden set) combinations in rotation: commit, proof JSON, commitment VALUE only on the wire, verify_proof, blind_sign (refusal = caught panic), unblind across a holder restart, verify on the full vector, re-issuance after a revealed attribute changed (new vector only, stale signature rejected, e kept). Mismatching requests (other attributes, other hidden set, other bases/key, foreign trusted commitment, perturbed proof leaves) must make verify_proof false and blind_sign refuse.",
+   note="Found F6 on the pinned tree (fixed in /repo 9f3f736). Known finding: the `randomness` leaves of commitments embedded in the proof are never read by the verifier, so altering them goes unnoticed (consequence of F9).",
+   technique="deterministic simulation: enumerated hidden sets, request corruption, refusal-by-panic observed as node outcome"),
+ "C15": dict(engine=REAL_CL, cat="exploration", ref="§5 C15",
+   text="Presentation sessions Issuer -> Holder -> Verifier for all 62 (n <= 5, hidden subset incl. none/all) combinations in rotation with the verifier's commitment key over the issuer modulus; then single edits of revealed attributes, signer key, bases, commitment key, hidden set and n, and a rotating slice of all integer leaves of the serialized proof perturbed (+1, -1, zero, negate, swap). Verdict by content; a panic counts as not verifying.",
+   note="Known finding: the `randomness` leaves of embedded commitments are never read by the verifier (consequence of F9). CL1024 only.",
+   technique="deterministic simulation: enumerated hidden sets and field-level tampering of the presentation frame"),
+ "C16": dict(engine=REAL_CL, cat="exploration", ref="§5 C16",
+   text="Range-proof sessions Prover -> Verifier over widths {1,2,3,2^k,2^256-1,random} x positions {a,b,a+1,b-1,mid,random} x pool keys (216 combinations in rotation); foreign bounds/bases/modulus/commitment at the verifier; EVERY integer leaf of every proof perturbed; Mallory's transplant of the honest sub-proofs onto commitments to a-1, b+1, a-2^200 and a random group element with E_a_1/E_b_1 recomputed; the honest prover on out-of-range values must not obtain an accepted proof.",
+   note="Found F8 on the pinned tree (fixed in /repo ef76ba6). Known finding: F -> -F in a proof of square is accepted when the challenge and d are both even (sign malleability in Z_N^*).",
+   technique="deterministic simulation: field-level tampering plus Byzantine transplant on the range-proof frame"),
+ "C17": dict(engine=REAL_CL, cat="exploration", ref="§5 C17",
+   text="A passive observer on the transport with an omniscient checker: for every serialized issuance proof and signature proof (all hidden sets in rotation, with/without trusted party, full 256-bit attributes) every {value, randomness} object is tested against every public base pair and every secret of the sender (opening, recovery of v, two-candidate dictionary test) and every integer leaf against every secret.",
+   note="Known findings (F9, design-level: commitments are serialized with their randomness): listed one by one in known_findings.txt by frame/field/secret/base pair; any other opening is still a violation. No fault or schedule dimension: the simulator contributes the vantage point, the entropy seam and replay.",
+   technique="deterministic simulation: wire monitor with the sender's secrets (per-message invariant)"),
+ "C18": dict(engine=REAL_CL, cat="exploration", ref="§5 C18",
+   text="Key generation INSIDE the simulation on node threads whose entropy stream is keyed by the run seed (any failing key is regenerated exactly by the replay), with injected EINTR and short reads; a monitor with p, q checks N = pq, safe primes of 513 bits, every generated element in (1,N), coprime, quadratic residue mod p and q, pairwise distinct; own-modulus commitment keys partially; byte/JSON round trips of pk, sk, signature and KeyPair across a node restart; 800 draws per run of random_bits / rand_int for exact length and range.",
+   note="CL1024 only. 'g_i in <h>' is checked as quadratic residuosity. For own-modulus commitment keys the factors are discarded by the library.",
+   technique="deterministic simulation: seeded search over entropy streams with exact regeneration, restart round trips"),
+ "C19": dict(engine=REAL_CL, cat="exploration", ref="§5 C19",
+   text="Same sessions and vantage point as C17: the monitor recomputes every Fiat-Shamir challenge the recipient can and tests, for every response leaf, |floor(s/c) - x| < 2^64 and |floor(s/s') - x| < 2^64 against every secret x of the sender.",
+   note="Known findings (F10: blinding terms as short as the secrets): listed one by one in known_findings.txt by frame/response/divisor/secret; any other leak is still a violation. Hidden attributes are full 256-bit values (Appendix A.18).",
+   technique="deterministic simulation: wire monitor with the sender's secrets (per-message invariant)"),
 }
 
 NOT_APPLICABLE = []
